@@ -2,7 +2,7 @@
 
 Model: lean/SaVerif/Model/Autoflush.lean (a Session with pending adds /
 modifications / deletes over P(id, a), C(id, pid, a); ORM queries, counts, Core
-selects, Session.get, lazy loads, each with autoflush on / disabled by execution
+selects, legacy Query objects made of Table columns / func.count only, Session.get, lazy loads, each with autoflush on / disabled by execution
 option / inside no_autoflush).  Theorems: lean/SaVerif/Props/C47.lean.
 
 Direct oracle, two independent parts (neither uses the Lean model):
@@ -87,10 +87,12 @@ def world():
 
 
 def build_stmt(w, kind, q):
-    """kind in q / cnt / core"""
+    """kind in q / cnt / core (select on the Table) / lq, lcnt (legacy Query of Table columns only)"""
     sa = w.sa
     P, C = w.P, w.C
     name = q[0]
+    if kind in ("lq", "lcnt"):
+        return None
     if kind == "core":
         pt, ct = P.__table__, C.__table__
         tabs = [pt, ct]
@@ -128,6 +130,33 @@ def build_stmt(w, kind, q):
     return st
 
 
+def legacy_query(w, sess, kind, q, m):
+    """session.query(<columns of the Table> | func.count(<table column>)): no ORM entity anywhere"""
+    sa = w.sa
+    pt, ct = w.P.__table__, w.C.__table__
+    tabs = [pt, ct]
+    name = q[0]
+    if name == "all":
+        t, crit, join = tabs[q[1]], None, None
+    elif name == "a":
+        t = tabs[q[1]]
+        crit, join = (t.c.a == q[2]), None
+    elif name == "pid":
+        t, crit, join = ct, (ct.c.pid == q[1]), None
+    else:
+        t, crit, join = pt, (ct.c.a == q[1]), (ct, ct.c.pid == pt.c.id)
+    qq = sess.query(t.c.id) if kind == "lq" else sess.query(sa.func.count(sa.distinct(t.c.id)))
+    if join:
+        qq = qq.join(*join)
+    if crit is not None:
+        qq = qq.filter(crit)
+    if kind == "lq":
+        qq = qq.distinct().order_by(t.c.id)
+    if m == "opt":
+        qq = qq.autoflush(False)
+    return qq
+
+
 def eval_ref(rows, q):
     """reference evaluation over dict (t, id) -> [a, pid]; returns (t, ids)"""
     name = q[0]
@@ -142,7 +171,7 @@ def eval_ref(rows, q):
     )
 
 
-READ_KINDS = ("q", "cnt", "core", "get", "kids")
+READ_KINDS = ("q", "cnt", "core", "lq", "lcnt", "get", "kids")
 
 
 def run_history(case, twin=False):
@@ -255,14 +284,25 @@ def _run_history(case, twin):
                         sess.delete(o)
                         flushed.pop(k, None)
                         outs.append("d")
-                    elif kind in ("q", "cnt", "core"):
+                    elif kind in ("q", "cnt", "core", "lq", "lcnt"):
                         m, q = op[1], op[2]
                         stmt = build_stmt(w, kind, q)
-                        if m == "opt":
+                        if m == "opt" and stmt is not None:
                             stmt = stmt.execution_options(autoflush=False)
                         with reading(m):
-                            res = sess.execute(stmt)
-                            if kind == "q":
+                            if kind == "lq":
+                                got = [r[0] for r in legacy_query(w, sess, kind, q, m).all()]
+                                outs.append("{" + " ".join(str(x) for x in got) + "}")
+                                res = None
+                            elif kind == "lcnt":
+                                got = legacy_query(w, sess, kind, q, m).scalar()
+                                outs.append("#%d" % got)
+                                res = None
+                            else:
+                                res = sess.execute(stmt)
+                            if res is None:
+                                pass
+                            elif kind == "q":
                                 objs = res.scalars().all()
                                 keep.extend(objs)
                                 got = [(o.id, o.a) for o in objs]
@@ -280,7 +320,7 @@ def _run_history(case, twin):
                             if poisoned[0]:
                                 problems.append(("duplicate-insert-not-detected", "op %s" % (op,)))
                             t, ids = eval_ref(flushed, q)
-                            exp = [(i, flushed[(t, i)][0]) for i in ids] if kind == "q" else (len(ids) if kind == "cnt" else ids)
+                            exp = [(i, flushed[(t, i)][0]) for i in ids] if kind == "q" else (len(ids) if kind in ("cnt", "lcnt") else ids)
                             if got != exp:
                                 problems.append(("query-misses-pending-change", "%s returned %s, pending state says %s" % (op, got, exp)))
                     elif kind == "get":
@@ -355,7 +395,7 @@ def enc_op(op):
         return "add:%d:%d:%d:%s" % (op[1], op[2], op[3], "N" if op[4] is None else op[4])
     if k == "setp":
         return "setp:%d:%d:%s" % (op[1], op[2], "N" if op[3] is None else op[3])
-    if k in ("q", "cnt", "core"):
+    if k in ("q", "cnt", "core", "lq", "lcnt"):
         return "%s:%s:%s" % (k, op[1], enc_q(op[2]))
     return ":".join(str(x) for x in op)
 
@@ -408,9 +448,11 @@ def gen_random(rng, tier):
             ops.append(("q", rand_mode(rng), rand_q(rng, n)))
         elif r < 0.70:
             ops.append(("cnt", rand_mode(rng), rand_q(rng, n)))
-        elif r < 0.76:
+        elif r < 0.74:
             ops.append(("core", rng.choice(["on", "on", "ctx"]), rand_q(rng, n)))
-        elif r < 0.86:
+        elif r < 0.79:
+            ops.append((rng.choice(["lq", "lcnt"]), rand_mode(rng), rand_q(rng, n)))
+        elif r < 0.88:
             ops.append(("get", rand_mode(rng), t, i))
         elif r < 0.94:
             ops.append(("kids", rng.choice(["on", "on", "ctx"]), i))
@@ -430,7 +472,7 @@ def small_scope(length):
     alpha = [
         ("add", 0, 1, 2, None), ("add", 1, 1, 2, 0), ("seta", 1, 0, 2), ("seta", 0, 0, 2), ("setp", 1, 0, None), ("del", 1, 0), ("del", 0, 0),
         ("q", "on", ("a", 1, 2)), ("q", "opt", ("a", 1, 2)), ("q", "on", ("join", 2)), ("cnt", "on", ("pid", 0)), ("cnt", "ctx", ("pid", 0)),
-        ("get", "on", 1, 1), ("get", "on", 1, 0), ("kids", "on", 0), ("kids", "ctx", 0), ("core", "on", ("all", 1)), ("flush",), ("commit",),
+        ("get", "on", 1, 1), ("get", "on", 1, 0), ("kids", "on", 0), ("kids", "ctx", 0), ("core", "on", ("all", 1)), ("lq", "on", ("all", 1)), ("lcnt", "on", ("a", 1, 2)), ("lq", "opt", ("pid", 0)), ("flush",), ("commit",),
     ]
     for seq in itertools.product(alpha, repeat=length):
         yield prefix + list(seq) + [("q", "on", ("all", 1))]
@@ -492,7 +534,7 @@ def run(ctx, deep=False):
     ctx.rule = (
         "histories of add/set/delete (pending changes) interleaved with ORM queries (filters, join), counts, Core selects, Session.get and lazy "
         "loads, each with autoflush on / execution option off / no_autoflush, plus flush/commit, on a real Session over SQLite (2-4 ids x 2 "
-        "tables); random (seeded) + all 2-op (4% quick / all thorough 3-op) sequences over a 19-letter alphabet; every autoflush=True history is run "
+        "tables); random (seeded) + all 2-op (4% quick / all thorough 3-op) sequences over a 22-letter alphabet; every autoflush=True history is run "
         "twice (autoflush vs explicit flush + no_autoflush); non-trivial = at least one reading operation executed with pending changes"
     )
     import time
